@@ -301,6 +301,20 @@ func minimizeConc(path string, st *SiteTable, emit func(any)) int {
 		}
 	}
 	final := runConc(best, st, rl)
+	if final.Class == "result" {
+		pre := 0
+		for _, sg := range best.Sched.Tape {
+			if !sg.F {
+				pre++
+			}
+		}
+		if pre == 0 {
+			// the minimal failing execution has no preemption at all: the calls ran one
+			// after another, so the difference is history dependence (C13), not C06
+			final.Class = "history"
+			final.Detail += " (minimal failing schedule has no preemption: sequential history dependence)"
+		}
+	}
 	emit(FailLine{Kind: "minimized", Engine: "conc", Index: sc.Index, Seed: sc.Seed, Outcome: final, Scenario: best})
 	if final.Class == "" {
 		return 2
